@@ -3,7 +3,8 @@
 An item locator is a string
     <file> :: [<container> :: ...] <fn name>
 where a container is either `mod NAME`, an impl header exactly as written in the source
-with single spaces between tokens (e.g. `impl Round for Zero`), or
+with single spaces between tokens (e.g. `impl Round for Zero`; `impl IBig#1` = the second of
+several blocks with that header, 0-based), or
 `macro NAME#K` (K-th arm, 0-based, of `macro_rules! NAME`; the "function" is then the arm
 body itself and <fn name> must be `@arm`).
 Attributes (`#[...]`) and doc comments in front of the item are not part of the span
@@ -99,7 +100,14 @@ def _find_fn(toks, lo, hi, name):
 
 
 def _find_container(toks, lo, hi, header):
-    """Find a block `header {` at depth 0 in [lo,hi); return (body_lo, body_hi) inside braces."""
+    """Find a block `header {` at depth 0 in [lo,hi); return (body_lo, body_hi) inside braces.
+    `header#K` (K = 0, 1, ..) selects the K-th of several blocks with the same header (e.g. the two `impl IBig`
+    blocks of integer/src/convert.rs); without `#K` more than one hit is an error."""
+    ordinal = None
+    if '#' in header:
+        hd, _, od = header.rpartition('#')
+        if od.strip().isdigit():
+            header, ordinal = hd.strip(), int(od)
     want = [t for _, t in rtok.tokenize(header)]
     depth = 0
     i = lo
@@ -121,6 +129,10 @@ def _find_container(toks, lo, hi, header):
         i += 1
     if not hits:
         raise ExtractError('container `%s` not found' % header)
+    if ordinal is not None:
+        if ordinal >= len(hits):
+            raise ExtractError('container `%s` has no occurrence #%d' % (header, ordinal))
+        return hits[ordinal]
     if len(hits) > 1:
         raise ExtractError('container `%s` ambiguous' % header)
     return hits[0]
